@@ -306,6 +306,12 @@ def rename_spec(spec, ren):
                 ats=[sec(a) for a in spec['ats']])
 
 
+# A substitution is ESSENTIAL when the expression it replaces is of a kind the verifier accepts with a weaker specification than the real
+# meaning or none at all: formatted text, floating point literals and casts, byte-range slicing of text, byte / char iteration.  If the
+# anchor of such a substitution is lost (the expression was rewritten), obligations failing in the unit are undecided, never violations.
+# (Other substituted calls are rejected outright by rustc / Verus when they reappear unsubstituted, or have real specifications.)
+ESSENTIAL_RX = re.compile(r'format!\(|\[\s*\.\.|\.\.\s*[^\]\[]*\]|\bas f64\b|\d\.\d|\.bytes\(\)|\.chars\(\)|\.as_bytes\(\)')
+
 GLOBAL_RULES = [
     # (id, regex, replacement, description)
     ('R1', re.compile(r'\.(map|map_err)\(\s*(([A-Z]\w*)::([A-Z]\w*))\s*\)'),
@@ -1195,6 +1201,7 @@ class Weaver:
             mt.replace(m.start(), m.end(), '')
             pos = m.start()
         lost = []     # anchors that no longer resolve: the woven text is skipped (a proof aid is missing, never a verdict)
+        lost_essential = []
         sub_renames = dict(pre_renames)
         # declared substitutions first (exact text, must match)
         for rid, old, new in spec['subs']:
@@ -1210,8 +1217,8 @@ class Weaver:
                         mt.replace(fz[0], fz[0] + fz[1], new_)
                         continue
                     log.append((rid, 'ANCHOR LOST: %s' % norm(old[1])))
-                    if rid.endswith('!') or 'format!(' in old[1]:
-                        lost.append('essential substitution %r (the expression it replaces is uninterpreted for the verifier)' % norm(old[1]))
+                    if rid.endswith('!') or ESSENTIAL_RX.search(old[1]):
+                        lost_essential.append((rid, old[1]))
                     continue
                 for m_ in reversed(ms):
                     mt.replace(m_.start(), m_.end(), new)
@@ -1229,8 +1236,8 @@ class Weaver:
                     continue
                 log.append((rid, 'ANCHOR LOST: %s' % norm(old)))
                 # `format!` is accepted by Verus with an unspecified result: a lost substitution of a formatted text is essential as well
-                if rid.endswith('!') or 'format!(' in old:
-                    lost.append('essential substitution %r (the expression it replaces is uninterpreted for the verifier)' % norm(old))
+                if rid.endswith('!') or ESSENTIAL_RX.search(old):
+                    lost_essential.append((rid, old))
                 continue
             pos = 0
             while True:
@@ -1254,6 +1261,12 @@ class Weaver:
                 mt.replace(m_.start(), m_.end(), new_)
                 pos_ = m_.start() + len(new_)
             log.append((rid, '/%s/  =>  %s  (x%d)' % (rx_, rep_, n_)))
+        # an essential substitution whose source text is gone compromises the unit only if a construct of that kind is still there (the
+        # expression was REWRITTEN); when the construct was removed altogether nothing under-specified is left
+        for rid_, old_ in lost_essential:
+            # declared essential (`sub!`): always; recognised by its kind: only while some construct of an under-specified kind is still in the body
+            if rid_.endswith('!') or ESSENTIAL_RX.search(mt.text):
+                lost.append('essential substitution %r (what replaces it may be accepted by the verifier with a weaker or no specification)' % norm(old_))
         apply_r8(mt, log)
         apply_r27(mt, log)
         if 'nom' in (spec.get('rulesets') or []):
